@@ -181,6 +181,12 @@ CLAIMED["C17"] = dict(
     note="'Independent tools' are represented by the specification-derived reader; GNU readelf validates THAT reader on ~40 concrete ppci/gcc/objcopy files in a self-test job and decides nothing about ppci. struct.Struct packing is replaced by the symx struct shim inside the header classes; every path is re-run concretely with the real struct/io. Names are concrete samples. Outside: acceptance by further third-party tools, DWARF/debug sections, ET_DYN, e_flags/sh_flags/p_flags details, relocatable files with relocations on non-x86 machines (ppci raises NotImplementedError; the check confirms that), relocation semantics (C10/C11), shapes beyond the stated sizes.",
     technique=TECH)
 
+CLAIMED["C21"] = dict(
+    level="model_checking", design="§11 (was planned as not applicable; the binary half is decidable)",
+    text="PARTIAL CLAIM - binary half, value dimension. For every module shape of a stated finite family (8 shapes built with ppci's component API: types, imports, nested block/loop/if/br/br_if/br_table, locals, globals with init expressions, memories and tables with limits, data and element segments, exports, start; plus the modules ppci's C->IR->wasm path produces for corpus programs) and for ALL values of all numeric immediates (i32/i64 constants over their full ranges, every u32 index / memarg / limit field over [0, 2**32), data bytes): ppci's real binary writer emits exactly the encoding core-spec section 5 prescribes (section order, sizes, counts and body sizes track the LEB lengths; independent walker ref/wasmbin.py), the real reader returns the same module field by field, and re-writing reproduces the bytes. Over-long LEB128 encodings of immediates and of size/count fields (up to 5, or 10 for i64, bytes) are read with the same value, never mis-read.",
+    note="Decided by z3 on the real reader, writer and leb128 code running on proxies, one path per combination of LEB lengths; per harness 1-2 immediates range over the whole type and the rest over one LEB-length class, random profiles vary all lengths together. OUTSIDE (stays unclaimed): the text half (to_string / text parser: values cross str(), float repr and a C regex tokenizer - a symbolic value cannot pass), comparison with a reference engine / reference assembler (not installed), float immediates, post-MVP encodings, module validation.",
+    technique=TECH)
+
 NOT_APPLICABLE = {
     "C04": "property is about native execution of whole gcc/ppci-compiled programs; no x86-64 semantics model is in reach and running binaries is enumeration of concrete runs, not solver-based checking",
     "C06": "dataflow property over uninterpreted instruction semantics: a checker would be tag propagation in which a solver decides nothing",
